@@ -1312,6 +1312,23 @@ fn generate(args: &[String]) -> i32 {
         let hs: Vec<String> = ixs.iter().map(|i| util::hex(pool[*i].1.as_bytes())).collect();
         writeln!(w, "seq {}", hs.join("|")).unwrap();
     }
+    // host errors with DIFFERENT operating-system texts one after the other in one process (seed C14-d2: the text
+    // of the first host error kept in a process-wide write-once static): spawn failures ENOENT / EACCES / ENOTDIR
+    // around ordinary programs, every order of two of them
+    {
+        let host = |prog: &str| format!("make c get command(\"{prog}\")\nmake r get c.run()\nshout(r)\n");
+        let errs = [host("/nonexistent/nv-no-such-program"), host("/etc/passwd"), host("/etc/passwd/x")];
+        let ok = "shout(\"between\")\n".to_string();
+        for a in 0..3 {
+            for b in 0..3 {
+                if a != b {
+                    let seq = [&errs[a], &ok, &errs[b], &errs[a]];
+                    let hs: Vec<String> = seq.iter().map(|s| util::hex(s.as_bytes())).collect();
+                    writeln!(w, "seq {}", hs.join("|")).unwrap();
+                }
+            }
+        }
+    }
     writeln!(w, "proto wasm").unwrap();
     // histories on S_SCRATCH
     for _ in 0..nhist {
